@@ -140,6 +140,7 @@ type Frame struct {
 	loopVar map[*ssa.BasicBlock]*Term // variant value at loop head
 	visits  map[*ssa.BasicBlock]int
 	pure    bool
+	pcAt    map[*ssa.BasicBlock]int
 }
 
 func (f *Frame) clone() *Frame {
@@ -160,6 +161,10 @@ func (f *Frame) clone() *Frame {
 	}
 	for k, v := range f.visits {
 		n.visits[k] = v
+	}
+	n.pcAt = make(map[*ssa.BasicBlock]int, len(f.pcAt))
+	for k, v := range f.pcAt {
+		n.pcAt[k] = v
 	}
 	return n
 }
